@@ -67,8 +67,21 @@ def b_len(E, st, node, args, kw):
         st.pc.append(f(x) >= 0)
         return [(st, f(x), None)]
     if isinstance(x, LazyComp):
-        raise Unsupported("len of a comprehension over a symbolic sequence")
+        return [(st, lazy_len(E, st, x), None)]
     raise Unsupported(f"len of {type(x).__name__}")
+
+
+def lazy_len(E, st, x):
+    """length of a (possibly filtered) comprehension over a symbolic sequence: an unknown
+    integer between 0 and the length of the source (exactly the source length if unfiltered)"""
+    if getattr(x, "_len", None) is None:
+        if not x.g.ifs:
+            x._len = x.seq.length
+        else:
+            n = E.fresh("complen", z3.IntSort())
+            st.pc.append(z3.And(n >= 0, n <= lift(x.seq.length)))
+            x._len = n
+    return x._len
 
 
 def b_str(E, st, node, args, kw):
@@ -335,6 +348,12 @@ def b_path_join(E, st, node, args, kw):
     return [(st, f(to_U(args[0]), to_U(args[1])), None)]
 
 
+def b_item(E, st, node, args, kw):
+    """item(xs, i): i-th element of an opaque iterable (spec language)"""
+    f = z3.Function("item_U", U, z3.IntSort(), U)
+    return [(st, f(to_U(args[0]), lift(args[1])), None)]
+
+
 def b_unpath(E, st, node, args, kw):
     f = z3.Function("unPath", U, U)
     return [(st, f(to_U(args[0])), None)]
@@ -345,6 +364,7 @@ GLOBALS = {
     "exists": b_exists,
     "implies": b_implies,
     "unpath": b_unpath,
+    "item": b_item,
     "path_join": b_path_join,
     "len": b_len,
     "str": b_str,
